@@ -18,7 +18,8 @@ PID = 'C11'
 LEVEL = 'exploration'
 BUDGET = {'quick': 4800, 'thorough': 200000}
 CAP_S = {'quick': 150, 'thorough': 3000}
-RULE = ('two case families. junk: a hint-construction program (recursive: typing factories subscripted by junk leaves - ints, strings '
+RULE = ('three case families. valid: a supported hint from the shared grammar with an object violating it at a generated path - whatever the '
+        'violation path raises must be a public beartype exception. junk: a hint-construction program (recursive: typing factories subscripted by junk leaves - ints, strings '
         'that do not parse or resolve, unhashables, slot wrappers, builtins, modules, nested tuples, wrong arity, special forms such as '
         'ClassVar/Final/Required/Unpack/ParamSpec/TypeVarTuple/Concatenate, deep legal nesting up to depth 400) evaluated to an object that '
         'is then passed as a hint to @beartype (parameter and return, decoration and call), is_bearable, die_if_unbearable, TypeHint and '
@@ -138,6 +139,12 @@ def _case(draw, tier):
         return {'family': 'user', 'exc': draw(st.sampled_from(sorted(USER_EXC))),
                 'site': draw(st.sampled_from(['body', 'validator', 'instancecheck', 'validator-nested', 'instancecheck-nested'])),
                 'ep': draw(st.sampled_from(['is_bearable', 'die_if_unbearable', 'param', 'return']))}
+    if draw(st.integers(0, 4)) == 0:
+        # valid hint from the shared grammar + an object violating it somewhere: rejections must be beartype exceptions too
+        node, _n = H.avoid_known_shapes(draw(H.hint_nodes(draw(st.sampled_from([1, 2, 2, 3])))))
+        v = draw(H.violating(node))
+        if v is not None:
+            return {'family': 'valid', 'hint': node, 'value': v[0]}
     if draw(st.integers(0, 60)) == 0:
         # deep-but-legal nesting (RecursionError must not leak); expensive, hence rare
         prog = ['deep', draw(st.sampled_from(['list', 'tuple', 'dict', 'Sequence', 'Optional'])),
@@ -310,5 +317,47 @@ def run_user(case):
     return {'fails': fails, 'nontrivial': True, 'evals': 1, 'classes': ['user', 'site:' + site]}
 
 
+def run_valid(case):
+    hint = H.build(case['hint'])
+    fails, seen = [], set()
+    evals = 0
+
+    def fp(p):
+        return None
+    fp.__annotations__ = {'p': hint}
+
+    def fr(p):
+        return p
+    fr.__annotations__ = {'return': hint}
+    with warnings.catch_warnings():
+        warnings.simplefilter('ignore')
+        try:
+            dp, dr = beartype(fp), beartype(fr)
+        except Exception as e:
+            dp = dr = None
+            if not _public_beartype(e):
+                fails.append({'sig': 'leak:decor:%s@%s' % (type(e).__name__, _where(e)), 'detail': 'hint=%r: %r' % (hint, e)})
+        calls = [('is_bearable', lambda o: is_bearable(o, hint)), ('die_if_unbearable', lambda o: die_if_unbearable(o, hint)),
+                 ('TypeHint.die_if_unbearable', lambda o: TypeHint(hint).die_if_unbearable(o))]
+        if dp is not None:
+            calls += [('call-param', dp), ('call-return', dr)]
+        for ep, fn in calls:
+            evals += 1
+            try:
+                fn(H.realize(case['value']))
+            except BaseException as e:
+                if not _public_beartype(e):
+                    sig = 'leak:violation-path:%s@%s' % (type(e).__name__, _where(e))
+                    if sig not in seen:
+                        seen.add(sig)
+                        fails.append({'sig': sig, 'detail': 'hint=%s obj=%r ep=%s raised %s: %s' % (
+                            H.describe(case['hint']), H.realize(case['value']), ep, type(e).__name__, str(e)[:300])})
+    return {'fails': fails, 'nontrivial': True, 'evals': evals, 'classes': ['valid-hint', 'root:' + case['hint'][0]]}
+
+
 def run_case(case):
-    return run_user(case) if case['family'] == 'user' else run_junk(case)
+    if case['family'] == 'user':
+        return run_user(case)
+    if case['family'] == 'valid':
+        return run_valid(case)
+    return run_junk(case)
